@@ -487,6 +487,49 @@ static void litmus(FILE *lf, int op, long iters)
 		IMPL, sbname[op], iters, sb_cnt[0], sb_cnt[1], sb_cnt[2], sb_cnt[3]);
 }
 
+/* ------------------------------------------------------------------ compiler-barrier litmus
+ * The fencing read-modify-writes must also order the CALLER'S PLAIN accesses (x86 asm: "memory" clobber; builtins: seq_cst).
+ * A poller reads a plain counter inside a critical section of a lock built from the operation alone; no call, no volatile and
+ * no other barrier is in its loop, so if the compiler may keep the plain load in a register across the operation the poller
+ * never observes the final value and gives up after CB_MAXIT iterations (done = 0). */
+#define CB_N 20000L
+#define CB_MAXIT 60000000L
+static int cb_lock __attribute__((aligned(64))); static long cb_counter __attribute__((aligned(64))); static int cb_op __attribute__((aligned(64)));
+#define CB_SPIN() do { } while (0)	/* nothing that could act as a compiler barrier */
+static inline __attribute__((always_inline)) void cb_acquire(int op)
+{
+	switch (op) {
+	case SB_XCHG:    while (uatomic_xchg(&cb_lock, 1)) CB_SPIN(); break;
+	case SB_CMPXCHG: while (uatomic_cmpxchg(&cb_lock, 0, 1) != 0) CB_SPIN(); break;
+	case SB_ADDRET:  while (uatomic_add_return(&cb_lock, 1) != 1) { (void) uatomic_sub_return(&cb_lock, 1); CB_SPIN(); } break;
+	default:         while (uatomic_sub_return(&cb_lock, 1) != -1) { (void) uatomic_add_return(&cb_lock, 1); CB_SPIN(); } break;
+	}
+}
+static inline __attribute__((always_inline)) void cb_release(int op)
+{
+	switch (op) {
+	case SB_XCHG:    (void) uatomic_xchg(&cb_lock, 0); break;
+	case SB_CMPXCHG: (void) uatomic_cmpxchg(&cb_lock, 1, 0); break;
+	case SB_ADDRET:  (void) uatomic_sub_return(&cb_lock, 1); break;
+	default:         (void) uatomic_add_return(&cb_lock, 1); break;
+	}
+}
+#define CB_WORKER(NAME, OP) static void *NAME(void *arg) { (void) arg; for (long i = 0; i < CB_N; i++) { cb_acquire(OP); cb_counter++; cb_release(OP); } return NULL; }
+#define CB_POLLER(NAME, OP) static long NAME(void) { long it; for (it = 0; it < CB_MAXIT; it++) { long v; cb_acquire(OP); v = cb_counter; cb_release(OP); if (v == 2 * CB_N) return it; } return -1; }
+CB_WORKER(cb_w_xchg, SB_XCHG) CB_WORKER(cb_w_cas, SB_CMPXCHG) CB_WORKER(cb_w_add, SB_ADDRET) CB_WORKER(cb_w_sub, SB_SUBRET)
+CB_POLLER(cb_p_xchg, SB_XCHG) CB_POLLER(cb_p_cas, SB_CMPXCHG) CB_POLLER(cb_p_add, SB_ADDRET) CB_POLLER(cb_p_sub, SB_SUBRET)
+static void cb_litmus(FILE *lf, int op)
+{
+	static void *(*const w[])(void *) = { NULL, cb_w_xchg, cb_w_cas, cb_w_add, cb_w_sub };
+	static long (*const pl[])(void) = { NULL, cb_p_xchg, cb_p_cas, cb_p_add, cb_p_sub };
+	pthread_t th[2]; long it;
+	cb_lock = 0; cb_counter = 0; cb_op = op;
+	for (int i = 0; i < 2; i++) if (pthread_create(&th[i], NULL, w[op], NULL)) die("pthread_create");
+	it = pl[op]();
+	for (int i = 0; i < 2; i++) pthread_join(th[i], NULL);
+	fprintf(lf, "{\"k\":\"cb\",\"impl\":\"%s\",\"op\":\"%s\",\"done\":%d,\"final\":%ld,\"expect\":%ld}\n", IMPL, sbname[op], it >= 0, cb_counter, 2 * CB_N);
+}
+
 static int run_hammer(uint64_t seed, const char *lpath, int scale)
 {
 	FILE *lf = fopen(lpath, "w");
@@ -552,6 +595,11 @@ int main(int argc, char **argv)
 {
 	if (argc >= 4 && !strcmp(argv[1], "vec")) return run_vectors(argv[2], argv[3]);
 	if (argc >= 4 && !strcmp(argv[1], "hammer")) return run_hammer(strtoull(argv[2], NULL, 10), argv[3], argc > 4 ? atoi(argv[4]) : 1);
-	fprintf(stderr, "usage: d_uatomic vec <vectors> <log> | hammer <seed> <log> [scale]\n");
+	if (argc >= 3 && !strcmp(argv[1], "cb")) {	/* compiler-barrier litmus (meaningful in an optimised build: -O2); appends to <log> */
+		FILE *lf = fopen(argv[2], "a"); if (!lf) die("cannot open log file");
+		for (int op = SB_XCHG; op < SB_NOPS; op++) cb_litmus(lf, op);
+		fclose(lf); return 0;
+	}
+	fprintf(stderr, "usage: d_uatomic vec <vectors> <log> | hammer <seed> <log> [scale] | cb <log>\n");
 	return 2;
 }
